@@ -12,6 +12,7 @@ claimed = {
  "C11": ("model_checking", "Compiler!Lookup (innermost scope of the current file in which the whole dotted path resolves, only members pushed so far) is run by TLC over random programs on the names {A,B,C} nested to depth 3 with an imported file and `as` names; every reference recorded by the real parser (file, line, token -> definition file, line) and every field width is decided by TLC against the machine.", "6 C11", "TLA+ Compiler state machine + TLC trace validation of recorded name resolutions"),
  "C13": ("model_checking", "Compiler!EvalCalc (precedence climbing over the token list) is model-checked against arithmetic templates (MC_Expr) and run by TLC over random constant programs; the parsed value of every constant, the capacities/options using it and the value denoted by the literal emitted into Python (import), C (compiled probe) and Go (lexical rules) are decided by TLC.", "6 C13", "TLA+ expression evaluator model-checked + TLC trace validation of constant values in parser and generated code"),
  "C09": ("model_checking", "Outcome typing (a schema, a ParserError, an OSError; nothing else; within 10 s) is decided by TLC for every input: declaration-level mutants of valid programs, for which the Compiler machine also gives the exact acceptance verdict and whose step counter is bounded (termination), character/token/line mutants and truncations of the repository's own schemas and of random programs, and token soup over the lexer vocabulary; every accepted input is rendered for c, go, py and c -O and any exception other than RendererError is an event the specification has no action for.", "6 C09", "TLA+ Compiler machine (verdict + termination bound) + TLC outcome typing of mutated inputs; totality is sampled, not proved"),
+ "C20": ("model_checking", "TextPos.tla computes line/column/indent of every definition's name from the layout tokens of the rendered text and lint expectations from the flat declarations (tagged conforming / clearly violating / unclear); TLC decides, per program, the AST's recorded positions, the warning set reported by the real linter, the check-only exit status and that -q changes neither exit status nor output files.", "6 C20", "TLA+ TextPos + lint expectations, TLC trace validation of recorded positions, warnings and CLI exits"),
 }
 checks = []
 for pid, (cat, text, ref, tech) in sorted(claimed.items()):
